@@ -107,6 +107,52 @@ def exec_batch(task, cd):
     return res
 
 
+def exec_shared(task, cd):
+    """One transformer object applied to SEVERAL texts of different length within one instruction
+    (`dir-contents d : every file : contents -transformed-by filter ARG ...`): every file must come out as the
+    specification says for ITS length - state kept in the transformer between texts would show."""
+    from harness import inproc
+    n = task['n']
+
+    def text(k, tag):
+        return ''.join('L%d%s\n' % (i, tag) for i in range(1, k + 1))
+
+    files = {'src/f0': '', 'src/f1': text(1, 'x'), 'src/fN': text(n, 'y')}
+    lines = ['[setup]', 'copy -rel-home src d', '[assert]']
+    for j, it in enumerate(task['items']):
+        files['e%d_0' % j] = ''
+        files['e%d_1' % j] = ''.join('L%dx\n' % i for i in it['exp']['1'])
+        files['e%d_N' % j] = ''.join('L%dy\n' % i for i in it['exp']['N'])
+        lines.append('dir-contents d : every file : contents -transformed-by filter %s\n    ( equals -contents-of -rel-home '
+                     'e%d_0 || equals -contents-of -rel-home e%d_1 || equals -contents-of -rel-home e%d_N )'
+                     % (it['arg'].replace("'^L[13579]$'", "'^L[13579][xy]$'"), j, j, j))
+    files['c.case'] = '\n'.join(lines) + '\n'
+    cd.write(files)
+    r = inproc.run_main(['c.case'], cd)
+    return dict(exit=r['exit'], exception=r['exception'], ident=(r['stdout'].splitlines() or [''])[0],
+                stderr=r['stderr'][:600])
+
+
+def check_shared(ctx, items, n, label, per_case=6):
+    tasks = [dict(n=n, items=items[a:a + per_case]) for a in range(0, len(items), per_case)]
+    with ctx.pool() as pool:
+        obs = pool.map('harness.props.c13:exec_shared', tasks, deadline=120, chunk=4)
+        redo = [it for t, o in zip(tasks, obs) if not (o.get('exit') == 0 and o.get('ident') == 'PASS') for it in t['items']]
+        robs = pool.map('harness.props.c13:exec_shared', [dict(n=n, items=[it]) for it in redo], deadline=60, chunk=4) \
+            if redo else []
+    bad = 0
+    for it, o in zip(redo, robs):
+        if not (o.get('exit') == 0 and o.get('ident') == 'PASS'):
+            bad += 1
+            ctx.fail('FilterExact (one transformer, several texts) filter %s' % it['arg'],
+                     dict(kind='shared', arg=it['arg'], n=n, expected=it['exp'], observed=o))
+    for it in items:
+        ctx.count()
+    ctx.cov['traces_validated_against_impl'] += len(items)
+    ctx.cov.setdefault('replay', {})[label] = dict(cases=len(items), test_case_runs=len(tasks) + len(redo),
+                                                   disagreements=bad)
+
+
 def selected(text, n):
     """kept text -> list of line numbers, or None if it is not a sub-sequence of the input's lines."""
     if text is None:
@@ -221,6 +267,11 @@ def run(ctx):
     check_items(ctx, items, n, 'expressions (exhaustive to the bound)')
     ritems = range_items(ranges)
     check_items(ctx, ritems, n, 'range lists')
+    rnd2 = random.Random(ctx.seed + 9)
+    check_shared(ctx, ritems if not quick else rnd2.sample(ritems, min(len(ritems), 3000)), n,
+                 'range lists, one transformer for texts of 0, 1 and N lines')
+    check_shared(ctx, items if not quick else rnd2.sample(items, min(len(items), 2000)), n,
+                 'expressions, one transformer for texts of 0, 1 and N lines')
     # 3. deep expressions: TLC random behaviours of the same machine beyond the exhaustive bound
     sim = ctx.tlc('LineFilterExport', cfg(n, [0, 1, 2, 3, 4, 5], 14, 6, invariants=INVARIANTS + ['Export'],
                                           max_ranges=0, random_lists=0),
@@ -258,6 +309,15 @@ def run(ctx):
 
 def replay(ctx, rec):
     r = rec['record']
+    if r.get('kind') == 'shared':
+        with ctx.pool(workers=1) as pool:
+            o = pool.map('harness.props.c13:exec_shared', [dict(n=r['n'], items=[dict(arg=r['arg'], exp=r['expected'])])],
+                         deadline=60)[0]
+        print(json.dumps(dict(arg=r['arg'], expected=r['expected'], observed=o), indent=1))
+        if not (o.get('exit') == 0 and o.get('ident') == 'PASS'):
+            print('VIOLATION property=C13 replay=(given)')
+            return 1
+        return 0
     with ctx.pool(workers=1) as pool:
         o = pool.map('harness.props.c13:exec_batch',
                      [dict(n=r['n'], filters=[r['arg']], final_newline=r.get('final_newline', True))], deadline=60)[0]
